@@ -100,6 +100,11 @@ func (t *textScannerLexer) Next() (Token, error) {
 	typ := t.scanner.Scan()
 	text := t.scanner.TokenText()
 	pos := Position(t.scanner.Position)
+	if !t.scanner.Position.IsValid() {
+		// text/scanner leaves the token position invalid (line 0) when it reports EOF for an
+		// empty source; use the current position instead, as its own error handler does.
+		pos = Position(t.scanner.Pos())
+	}
 	pos.Filename = t.filename
 	if t.err != nil {
 		return Token{}, t.err
